@@ -1,4 +1,5 @@
 import Spine.UseCaseSnapThm
+import Spine.UseCaseSnapRefine
 import Spine.SnapFacts
 /-!
 # C11, clause 1 for the use-case helpers and for snapshots read concurrently — theorems about hand-written models
@@ -79,6 +80,27 @@ theorem c11_scratch_helper_keeps_store (pre : List Ev) (o : Op) :
   intro s1
   have hg : Good s1 := runEvs_good pre {} good_init
   exact (step_stable s1 (.scratch o) hg s1.store hg.2.1).1
+
+/-- CROSS-MODEL AGREEMENT with C20's value-level registry `Spine.UC` (every well-formed heap, every input): what the
+    store reads after a helper program of the code as it is equals the registry operation applied to what it read
+    before — the heap model and the registry model describe the same helpers from two sides -/
+theorem c11_usecase_program_is_the_registry_operation (h : H) (v : Hdr) (o : Op) (hc : cellsBound h h.inner.length) :
+    (h.run (prog .clean h v o).1).view (prog .clean h v o).2 = Spine.UC.apply (h.view v) o :=
+  prog_refines h v o hc
+
+/-- … and along ANY history from the empty store the store reads the fold of the registry operations of the
+    EntityLocal helper calls; hand-outs and whatever the application does with its own values play no role -/
+theorem c11_usecase_store_is_the_registry (evs : List Ev) :
+    (runEvs .clean {} evs).h.view (runEvs .clean {} evs).store = (storeOps evs).foldl Spine.UC.apply [] :=
+  runEvs_refines evs {} good_init
+
+/-- non-vacuity: a history with hand-outs, a scratch helper and the application's own change in between -/
+example :
+    let evs : List Ev := [.op (.add [1] 1 ⟨1, 0, true, [], 1⟩), .copy, .scratch (.removeAll [1]), .op (.add [2] 1 ⟨2, 0, true, [], 1⟩),
+                          .own 0 (.add [3] 1 ⟨1, 0, true, [], 1⟩), .op (.setAvail [1] 1 1 false), .op (.remove [2] 1 2)]
+    storeOps evs = [.add [1] 1 ⟨1, 0, true, [], 1⟩, .add [2] 1 ⟨2, 0, true, [], 1⟩, .setAvail [1] 1 1 false, .remove [2] 1 2] ∧
+      ((runEvs .clean {} evs).h.view (runEvs .clean {} evs).store).map (fun i => (i.ent, i.sup.map (·.avail))) = [([1], [false])] := by
+  decide
 
 def threeEntities : List Ev :=
   [.op (.add [1] 1 ⟨1, 0, true, [1, 2], 1⟩), .op (.add [2] 1 ⟨1, 0, true, [], 1⟩), .op (.add [1, 1] 1 ⟨2, 0, true, [3], 1⟩), .copy]
